@@ -44,7 +44,7 @@ pub fn trees(seed: u64) -> Vec<Level> {
                     for t1 in &d1_tails {
                         j += 1;
                         let aliases = j % 3 == 0;
-                        let c = cmd("cmd", if aliases { vec!['m'] } else { vec![] }, if aliases { vec!["command"] } else { vec![] }, fam::leaf(n1.clone(), t1.clone()));
+                        let c = cmd("cmd", if aliases { vec![if j % 2 == 0 { 'm' } else { 'д' }] } else { vec![] }, if aliases { vec!["command"] } else { vec![] }, fam::leaf(n1.clone(), t1.clone()));
                         let cmds = if siblings == 1 { vec![c] } else if j % 2 == 0 { vec![c, other.clone()] } else { vec![other.clone(), c] };
                         out.push(fam::leaf(tn.clone(), Tail::Cmds { cmds, wrap }));
                     }
